@@ -148,6 +148,8 @@ def _quick(s):
         return TYPES[s["ti"]][0] == "o" and s["shape"] == 5 and (s["hx"], s["hy"], s["hc"], s["hin"], s["hz"]) in ((1, 0, 0, 0, 0), (0, 1, 0, 0, 0), (1, 1, 0, 0, 0), (1, 0, 1, 0, 0), (1, 0, 0, 1, 0), (1, 0, 0, 0, 1), (0, 0, 0, 1, 0))
     if s["di"] == 1 and s["shape"] == 1 and TYPES[s["ti"]][0] in ("i", "ni", "li", "b"):
         return True          # a provided value (incl. explicit null) where the variable declares a default
+    if TYPES[s["ti"]][0] in ("lc", "lnli", "li") and s["di"] == 0 and s["shape"] in (0, 1, 3):
+        return True          # declared types whose wrapper sequence is not a palindrome ([T!], [[T!]]!): null / absent at each level
     return TYPES[s["ti"]][0] in ("i", "nli", "lli", "o", "c", "f") and (s["di"] == 0 or s["shape"] == 0)
 
 
